@@ -327,6 +327,7 @@ type rstate struct {
 	unreach          bool
 	lchanged         int
 	rotated          bool
+	grownOK          bool // the buffer was extended exactly when full with head 0: slot classes restart with head₀ = 0
 	grewBy           int64
 	ret              rival
 	retC             rcls
@@ -1225,6 +1226,9 @@ func (ra *ringAbs) joinState(a, b *rstate, widen bool, at *ssa.BasicBlock) (*rst
 	if b.rotated && !r.rotated {
 		r.rotated, changed = true, true
 	}
+	if r.grownOK && !b.grownOK {
+		r.grownOK, changed = false, true
+	}
 	if b.grewBy > 0 && (r.grewBy == 0 || b.grewBy < r.grewBy) && b.lchanged > 0 {
 		r.grewBy = b.grewBy
 	}
@@ -1306,7 +1310,7 @@ func appendCount(ap *ssa.Call) int64 {
 // slotActive: residue classes are meaningful (a non-empty buffer that has not
 // been rotated or replaced on this path) and a spec applies.
 func (ra *ringAbs) slotActive(s *rstate) bool {
-	return ra.slotOn && ra.spec != nil && !s.lzero && s.lchanged == 0 && !s.rotated
+	return ra.slotOn && ra.spec != nil && !s.lzero && !s.rotated && (s.lchanged == 0 || (s.grownOK && s.lchanged == 1))
 }
 
 func (ra *ringAbs) checkSlot(name string, s *rstate, x *ssa.IndexAddr) {
@@ -1692,8 +1696,27 @@ func (ra *ringAbs) step(fn *ssa.Function, qv ssa.Value, s *rstate, ins ssa.Instr
 					if g == 0 && s.lzero {
 						ra.problem(key, x.Pos(), "the buffer is re-appended with a number of elements the analysis cannot bound below")
 					}
+					// growth by append keeps cells 0..L-1 and puts the appended element at index L: that is the
+					// logical position n of the new element only if the buffer is exactly full and starts at 0
+					gk := name + ":growth appends at position n"
+					ra.site(gk, x.Pos())
+					full := ctx.same(s.n, rexact(rL))
+					atZero := ctx.same(s.head, rexact(rconst(0)))
+					switch {
+					case !full:
+						ra.problem(gk, x.Pos(), "the buffer is extended by append while n has abstract value %s, not exactly the buffer length: the appended cell is not the logical position n (a hole or an overwritten element)", s.n)
+					case !atZero:
+						ra.problem(gk, x.Pos(), "the buffer is extended by append while head has abstract value %s, not 0: the appended cell does not follow the last element", s.head)
+					}
 					ra.rewriteForNewL(s, g)
 					s.grewBy = g
+					if full && atZero && g >= 1 {
+						// restart the slot classes in the grown buffer: logical head is cell 0
+						s.grownOK, s.rotated = true, false
+						s.Hiv = rexact(rconst(0))
+						s.cls = map[ssa.Value]rcls{}
+						s.headC = rcls{ok: true, h: 1}
+					}
 					return one
 				}
 			}
@@ -1834,7 +1857,7 @@ func (ra *ringAbs) runRoots(methods []*ssa.Function) {
 // sameState: the two abstract states are equal (fixpoint test).
 func (ra *ringAbs) sameState(a, b *rstate) bool {
 	if a.lzero != b.lzero || a.head != b.head || a.n != b.n || a.Hiv != b.Hiv || a.Niv != b.Niv || a.headC != b.headC || a.nC != b.nC ||
-		a.hver != b.hver || a.nver != b.nver || a.vver != b.vver || a.lchanged != b.lchanged || a.rotated != b.rotated || len(a.env) != len(b.env) || len(a.cls) != len(b.cls) {
+		a.hver != b.hver || a.nver != b.nver || a.vver != b.vver || a.lchanged != b.lchanged || a.rotated != b.rotated || a.grownOK != b.grownOK || len(a.env) != len(b.env) || len(a.cls) != len(b.cls) {
 		return false
 	}
 	for k, v := range a.env {
